@@ -208,6 +208,28 @@ namespace {
          pp.indent(5000);
          pp << ipr::xpr_stmt(*blocks.back());
       }
+      else if (kind == "big-tables") {
+         // every kind of lookup table with hundreds of entries, entered in descending, ascending and zig-zag key order (the
+         // extreme shapes a balanced tree takes), then torn down with the Lexicon
+         impl::Lexicon lex;
+         impl::Translation_unit u { lex };
+         auto word = [](const char* pre, int k) { char b[32]; std::snprintf(b, sizeof b, "%s%04d", pre, k); return vh::u8(b); };
+         const int n = 300;
+         for (int k = n; k-- > 0; ) lex.get_identifier(word("d", k));                       // descending spellings
+         for (int k = 0; k < n; ++k) lex.get_identifier(word("a", k));                      // ascending
+         for (int k = 0; k < n; ++k) lex.get_identifier(word("z", k % 2 ? n - k : k));      // zig-zag
+         std::vector<const ipr::Type*> ts;
+         for (int k = 0; k < n; ++k) ts.push_back(&lex.get_as_type(lex.get_identifier(word("t", k))));
+         for (int k = n; k-- > 0; ) lex.get_pointer(*ts[static_cast<std::size_t>(k)]);
+         for (int k = 0; k < n; ++k) lex.get_reference(*ts[static_cast<std::size_t>(k)]);
+         for (int k = 0; k < n; ++k) lex.get_qualified(lex.const_qualifier(), *ts[static_cast<std::size_t>(k % 2 ? n - k : k)]);
+         for (int k = n; k-- > 0; ) lex.make_literal(lex.int_type(), word("", k));
+         for (int k = n; k-- > 0; ) lex.get_logogram(lex.get_string(word("lg", k)));
+         auto cls = lex.make_class(*u.global_region());
+         for (int k = n; k-- > 0; ) u.global_scope()->make_var(lex.get_identifier(word("d", k)), lex.int_type());
+         for (int k = 0; k < n; ++k) cls->body.scope.make_var(lex.get_identifier(word("a", k)), lex.int_type());
+         for (int k = n; k-- > 0; ) cls->body.scope.make_var(lex.get_identifier(u8"overloaded"), *ts[static_cast<std::size_t>(k)]);
+      }
       else if (kind == "two-lexicons") {
          impl::Lexicon a;
          {
@@ -229,7 +251,7 @@ namespace {
       for (int k = 2; k + 1 < argc; k += 2) if (std::string(argv[k]) == "--seed") seed = std::stoul(argv[k + 1]);
       static ledger::State state;
       ledger::st = &state;
-      for (std::string kind : { "empty", "unit", "names", "types", "scopes", "regions", "strings", "zoo+print", "two-lexicons", "constants", "deep-print" }) {
+      for (std::string kind : { "empty", "unit", "names", "types", "scopes", "regions", "strings", "zoo+print", "two-lexicons", "constants", "deep-print", "big-tables" }) {
          history(kind, seed);                                       // warm-up: lazy initialisation of the runtime
          for (int run = 2; run <= 3; ++run) {
             ledger::inside = true;
